@@ -404,6 +404,26 @@ def probe(ctx):
         else:
             for r, th, sv in results:
                 ctx.probe_ok((name, tuple(np.round(th.reshape(-1).numpy()[:3], 6))))
+        # angle charts (Euler-Hurwitz angles and half-phases, sphere coordinates) are periodic: a point whose parameters lie OUTSIDE the principal range
+        # (every entry shifted by +-2*pi) is as generic as the point it is equivalent to, and must have the same rank (a saturating clamp of the
+        # phases to [-pi,pi] instead of a periodic wrap would zero Jacobian columns there)
+        if ('euler' in c['name'] or 'coordinate' in c['name']) and 'scalar' not in c:
+            for rep_ in range(2):
+                base = rng.normal(size=tuple(m.theta.shape))
+                th = torch.tensor(base + 2 * np.pi * rng.choice([-1.0, 1.0], size=base.shape), dtype=m.theta.dtype)
+                J = guarded(lambda: module_jacobian(m, th))
+                if isinstance(J, str):
+                    ctx.fail('jacobian-raises', f"{name}: autograd Jacobian of forward() raised {J} (parameters outside the principal range)", dict(cls=name, theta=th.reshape(-1).tolist())); break
+                r, clean, sv = rank_of(J, k)
+                J0 = guarded(lambda: module_jacobian(m, torch.tensor(base, dtype=m.theta.dtype)))
+                r0 = None if isinstance(J0, str) else rank_of(J0, k)[0]
+                if r != k and r0 == k:
+                    ctx.fail('rank-deficient' if r < k else 'rank-excess',
+                             f"{name}: at theta = theta0 + 2*pi*(+-1) (outside the principal range of the angles) the differential of forward() has rank {r}, "
+                             f"at the equivalent point theta0 it has the claimed rank {k}",
+                             dict(cls=name, n_param=n, expected_rank=k, observed_rank=r, theta=th.reshape(-1).tolist(), theta_equivalent=base.reshape(-1).tolist(), singular_values=sv.tolist()))
+                    break
+                ctx.probe_ok((name, 'off-principal-range', rep_))
         # history: differentiating must not change the module (forward twice, parameters untouched)
         th0 = m.theta.detach().clone()
         with torch.no_grad():
